@@ -2,6 +2,12 @@
 // scheduling hooks): they build and run whatever shape the class's internals have.
 //
 //   stress tight <THREAD|TASK|AUTO> <nthreads> <max_cycles> <seed> <budget_ms>
+//   stress long  <THREAD|TASK|AUTO> <nthreads> <max_body_us> <seed> <budget_ms>
+//
+// "long": body durations spanning decades (1 us ... max_body_us, a handful of long ones); stop() -- and, for a loop that
+// owns its thread, the destructor -- is called while the body is INSIDE (the body publishes that in its own atomic).
+// Oracle, on state only: when stop() / ~AsyncLoop() returns, the body's own flag says it is NOT inside and the invocation
+// that was in flight has finished (its exit counter moved); the timestamps of body exit and of the return are reported.
 //
 // "tight": the body is (almost) empty -- it increments an atomic counter -- so the loop thread spends nearly all its
 // time in AsyncLoop's own flag handling, and start()/stop() are called in tight cycles with random tiny pauses.
@@ -193,12 +199,130 @@ static int tight(const char *mname, int method, int nthreads, long max_cycles, u
   return 0;
 }
 
+static long now_us()
+{
+  return (long)std::chrono::duration_cast<std::chrono::microseconds>(std::chrono::steady_clock::now().time_since_epoch()).count();
+}
+
+struct LongBody
+{
+  std::atomic<bool> inside{false};
+  std::atomic<long> enters{0}, exits{0}, t_exit_us{0}, dur_us{1};
+  void operator()()
+  {
+    long d = dur_us.load();
+    enters++;
+    inside = true;
+    if (d >= 1000)
+      std::this_thread::sleep_for(std::chrono::microseconds(d));   // long bodies sleep: no CPU needed, immune to load
+    else
+      busy_us((unsigned)d);
+    t_exit_us = now_us();
+    inside    = false;
+    exits++;
+    g_progress++;
+  }
+};
+
+static int long_body(const char *mname, int method, int nthreads, long max_body_us, unsigned seed, long budget_ms)
+{
+  static const long decades[] = {1, 10, 100, 1000, 10000, 100000, 400000, 1200000};
+  long t_start = now_ms();
+  long tested = 0, mid_body = 0, bad_stop = 0, bad_dtor = 0, dtor_tested = 0;
+  long bad_dur = -1, bad_late_us = 0;
+  const char *bad_what = "";
+  bool owns = method == (int)AsyncLoop::THREAD || (method == (int)AsyncLoop::AUTO && rkcommon::tasking::numTaskingThreads() <= 4);
+  (void)seed;
+  g_phase = 1;
+  // ---- stop() in the middle of a body invocation
+  {
+    LongBody b;
+    AsyncLoop loop([&b] { b(); }, (AsyncLoop::LaunchMethod)method);
+    for (long d : decades) {
+      if (d > max_body_us || (now_ms() - t_start > budget_ms && d > 1000))
+        continue;
+      g_cycle = d;
+      b.dur_us = d;
+      long e0 = b.enters.load();
+      loop.start();
+      while (b.enters.load() == e0 || !b.inside.load()) {   // wait until an invocation with this duration is inside
+        if (b.enters.load() > e0 + 3 && d < 1000)
+          break;                                            // short bodies: inside only in passing
+        busy_us(5);
+      }
+      bool was_inside = b.inside.load();
+      long x0 = b.exits.load();
+      loop.stop();
+      long t_ret     = now_us();
+      bool inside_now = b.inside.load();                    // THE oracle: a fact, not a time measurement
+      long x1 = b.exits.load();
+      tested++;
+      g_progress++;
+      if (was_inside)
+        mid_body++;
+      if (inside_now) {
+        bad_stop++;
+        while (b.inside.load())                             // let the invocation finish; how late was it?
+          busy_us(50);
+        if (bad_dur < 0) {
+          bad_dur     = d;
+          bad_late_us = b.t_exit_us.load() - t_ret;
+          bad_what    = "stop() returned while the body invocation was still inside";
+        }
+      } else if (was_inside && x1 == x0 && d >= 1000) {
+        // it was inside when stop() was called and is not now, yet no invocation finished: cannot happen
+        bad_stop++;
+        if (bad_dur < 0) {
+          bad_dur  = d;
+          bad_what = "inconsistent: inside before stop(), not inside after, no invocation finished";
+        }
+      }
+    }
+    g_phase = 2;
+  }
+  // ---- destructor in the middle of a body invocation (only constrained when the loop owns its thread)
+  if (owns)
+    for (long d : {1000L, 100000L, 400000L}) {
+      if (d > max_body_us || now_ms() - t_start > 2 * budget_ms)
+        continue;
+      LongBody *b = new LongBody;        // leaked on purpose if the destructor fails to wait (the thread may still use it)
+      b->dur_us   = d;
+      {
+        AsyncLoop loop([b] { (*b)(); }, (AsyncLoop::LaunchMethod)method);
+        loop.start();
+        while (!b->inside.load())
+          busy_us(5);
+      }  // ~AsyncLoop() while the body is inside, no stop() before
+      long t_ret = now_us();
+      dtor_tested++;
+      g_progress++;
+      if (b->inside.load()) {
+        bad_dtor++;
+        while (b->inside.load())
+          busy_us(50);
+        if (bad_dur < 0) {
+          bad_dur     = d;
+          bad_late_us = b->t_exit_us.load() - t_ret;
+          bad_what    = "~AsyncLoop() returned while the body invocation was still inside";
+        }
+      } else
+        delete b;
+    }
+  g_phase = 3;
+  printf("LONG method=%s nthreads=%d num_tasking_threads=%d owns_thread=%d durations_tested=%ld stop_called_mid_body=%ld "
+         "stop_returned_while_inside=%ld dtor_tested=%ld dtor_returned_while_inside=%ld first_bad_body_us=%ld body_exit_after_return_us=%ld "
+         "what=[%s] wall_ms=%ld\n",
+         mname, nthreads, rkcommon::tasking::numTaskingThreads(), (int)owns, tested, mid_body, bad_stop, dtor_tested, bad_dtor, bad_dur,
+         bad_late_us, bad_what, now_ms() - t_start);
+  return 0;
+}
+
 int main(int argc, char **argv)
 {
   if (const char *e = getenv("C03_PATIENCE"))
     g_patience = atoi(e) > 0 ? atoi(e) : 1;
-  if (argc < 8 || strcmp(argv[1], "stress") || strcmp(argv[2], "tight")) {
-    fprintf(stderr, "usage: stress stress tight <THREAD|TASK|AUTO> <nthreads> <max_cycles> <seed> <budget_ms>\n");
+  if (argc < 8 || strcmp(argv[1], "stress") || (strcmp(argv[2], "tight") && strcmp(argv[2], "long"))) {
+    fprintf(stderr, "usage: stress stress tight|long <THREAD|TASK|AUTO> <nthreads> <max_cycles|max_body_us> <seed> <budget_ms>\n");
     return 2;
   }
   const char *mname = argv[3];
@@ -233,5 +357,7 @@ int main(int argc, char **argv)
       }
     }
   }).detach();
+  if (!strcmp(argv[2], "long"))
+    return long_body(mname, method, n, atol(argv[5]), (unsigned)atol(argv[6]), atol(argv[7]));
   return tight(mname, method, n, atol(argv[5]), (unsigned)atol(argv[6]), atol(argv[7]));
 }
